@@ -66,6 +66,8 @@ let width_of = function
   | "u64" | "i64" | "usize" | "isize" -> 64 | _ -> 128
 
 let cur = ref Nothing
+let cur_pfs : pfsupport list option ref = ref None
+let cur_data : n list ref = ref []
 let n_of_len (l : 'a list) = n_of_int (List.length l)
 
 let range a b = let rec go i acc = if i < a then acc else go (i - 1) (i :: acc) in go b []
@@ -75,6 +77,7 @@ let nlen_int (x : n) : int = match x with N0 -> 0 | Npos p -> int_of_pos p
 let rec nat_of_int i = if i <= 0 then O else S (nat_of_int (i - 1))
 
 let build kind elem path (rest : string list) : obj =
+  cur_pfs := None;
   let vals () = match rest with _ :: vs -> vs | [] -> [] in
   let of_outcome f o = match o with Val v -> f v | Fault e -> Faulted e in
   match kind with
@@ -92,7 +95,11 @@ let build kind elem path (rest : string list) : obj =
     let w = n_of_int (width_of elem) in
     (match path with
      | "default" -> Qwt (w, b, qwt_default)
-     | _ -> of_outcome (fun t -> Qwt (w, b, t)) (qwt_new w b (List.map n_of_string (vals ()))))
+     | _ ->
+       let data = List.map n_of_string (vals ()) in
+       (if kind = "qwt256pfs" || kind = "qwt512pfs" then
+          (match qwt_pfs_new w data with Val p -> cur_pfs := Some p | Fault _ -> cur_pfs := None));
+       of_outcome (fun t -> Qwt (w, b, t)) (qwt_new w b data))
   | "hqwt256" | "hqwt512" | "hqwt256pfs" | "hqwt512pfs" | "hwt" ->
     (match path with
      | "default" ->
@@ -171,7 +178,9 @@ let resolve_pending (spec : string) : string =
           (if kind = "hwt" then
              (match wt_build w true data table with Val t -> cur := Wt (w, true, t) | Fault e -> cur := Faulted e)
            else
-             (match hq_build b data table with Val t -> cur := Hq (w, b, t) | Fault e -> cur := Faulted e));
+             ((if kind = "hqwt256pfs" || kind = "hqwt512pfs" then
+                 (match hq_pfs_new data table with Val p -> cur_pfs := Some p | Fault _ -> cur_pfs := None));
+              match hq_build b data table with Val t -> cur := Hq (w, b, t) | Fault e -> cur := Faulted e));
           codes_string ctab))
   | _ -> "-"
 
@@ -305,13 +314,17 @@ let query (op : string) (a : n list) : string =
      | "uget" -> sv sn (hq_get_unchecked w b t (a0 ()))
      | "rank" -> so sn (hq_rank b t (a0 ()) (a1 ()))
      | "urank" -> sv sn (hq_rank_unchecked b t (a0 ()) (a1 ()))
-     | "rankp" -> so sn (hq_rank_prefetch b t (a0 ()) (a1 ()))
+     | "rankp" -> (match !cur_pfs with
+         | Some p -> so sn (hq_rank_prefetch_pfs b t p (a0 ()) (a1 ()))
+         | None -> so sn (hq_rank_prefetch b t (a0 ()) (a1 ())))
      | "urankp" -> sv sn (hq_rank_prefetch_unchecked b t (a0 ()) (a1 ()))
      | "select" -> so sn (hq_select b t (a0 ()) (a1 ()))
      | "uselect" -> sv sn (hq_select_unchecked b t (a0 ()) (a1 ()))
      | "getall" -> join (List.map (fun i -> so sn (hq_get w b t (n_of_int i))) (range 0 (nlen_int (hq_len t) + 1)))
      | "rankall" -> join (List.map (fun i -> so sn (hq_rank b t (a0 ()) (n_of_int i))) (range 0 (nlen_int (hq_len t) + 1)))
-     | "rankpall" -> join (List.map (fun i -> so sn (hq_rank_prefetch b t (a0 ()) (n_of_int i))) (range 0 (nlen_int (hq_len t) + 1)))
+     | "rankpall" -> join (List.map (fun i -> match !cur_pfs with
+         | Some p -> so sn (hq_rank_prefetch_pfs b t p (a0 ()) (n_of_int i))
+         | None -> so sn (hq_rank_prefetch b t (a0 ()) (n_of_int i))) (range 0 (nlen_int (hq_len t) + 1)))
      | "selectall" -> join (List.map (fun k -> so sn (hq_select b t (a0 ()) (n_of_int k))) (range 0 (nlen_int (a1 ()))))
      | _ -> "-")
   | Wt (w, c, t) ->
@@ -339,20 +352,34 @@ let query (op : string) (a : n list) : string =
      | "uget" -> sv sn (qwt_get_unchecked w b t (a0 ()))
      | "rank" -> so sn (qwt_rank w b t (a0 ()) (a1 ()))
      | "urank" -> sv sn (qwt_rank_unchecked w b t (a0 ()) (a1 ()))
-     | "rankp" -> so sn (qwt_rank_prefetch w b t (a0 ()) (a1 ()))
+     | "rankp" -> (match !cur_pfs with
+         | Some p -> so sn (qwt_rank_prefetch_pfs w b t p (a0 ()) (a1 ()))
+         | None -> so sn (qwt_rank_prefetch w b t (a0 ()) (a1 ())))
      | "urankp" -> sv sn (qwt_rank_prefetch_unchecked w b t (a0 ()) (a1 ()))
      | "select" -> so sn (qwt_select w b t (a0 ()) (a1 ()))
      | "uselect" -> sv sn (qwt_select_unchecked w b t (a0 ()) (a1 ()))
      | "getall" -> join (List.map (fun i -> so sn (qwt_get w b t (n_of_int i))) (range 0 (nlen_int (qwt_len t) + 1)))
      | "rankall" -> join (List.map (fun i -> so sn (qwt_rank w b t (a0 ()) (n_of_int i))) (range 0 (nlen_int (qwt_len t) + 1)))
-     | "rankpall" -> join (List.map (fun i -> so sn (qwt_rank_prefetch w b t (a0 ()) (n_of_int i))) (range 0 (nlen_int (qwt_len t) + 1)))
+     | "rankpall" -> join (List.map (fun i -> match !cur_pfs with
+         | Some p -> so sn (qwt_rank_prefetch_pfs w b t p (a0 ()) (n_of_int i))
+         | None -> so sn (qwt_rank_prefetch w b t (a0 ()) (n_of_int i))) (range 0 (nlen_int (qwt_len t) + 1)))
      | "selectall" -> join (List.map (fun k -> so sn (qwt_select w b t (a0 ()) (n_of_int k))) (range 0 (nlen_int (a1 ()))))
      | _ -> "-")
 
 let iter_run (src : string) (ops : string) (a : n list) : string =
   let out = ref [] in
   let emit x = out := x :: !out in
+  let tree_iter (get_u : n -> n outcome) (len : n) =
+    let st = ref (wtit_new len) in
+    String.iter (fun ch -> match ch with
+      | 'n' -> (match wtit_next get_u !st with Val (v, st') -> st := st'; emit (match v with Some x -> "S" ^ sn x | None -> "N") | Fault e -> emit (fault_s e))
+      | 'b' -> (match wtit_next_back get_u !st with Val (v, st') -> st := st'; emit (match v with Some x -> "S" ^ sn x | None -> "N") | Fault e -> emit (fault_s e))
+      | 'l' -> emit (sv sn (wtit_len !st))
+      | _ -> emit "X") ops in
   (match !cur with
+   | Qwt (w, b, t) -> tree_iter (qwt_get_unchecked w b t) (qwt_len t)
+   | Hq (w, b, t) -> tree_iter (hq_get_unchecked w b t) (hq_len t)
+   | Wt (w, c, t) -> tree_iter (wt_get_unchecked w c t) t.w_n
    | Qv q ->
      let i = ref N0 in
      String.iter (fun ch -> match ch with
